@@ -227,6 +227,17 @@ def check_expansion(ctx, rule="C19", only=None, default_tolerance_only=False):
                   f"the remainder is not initialised as {angle} / pi; the steps n / 2^d are fractions of pi", repo.loc(m, fn))
     # ---- roles inside the loop
     lp.body = _fold_step_temporaries(lp.body, rest)
+    # a simplification of the step done inside the expansion loop (`while d > 0 and n % 2 == 0: n, d = n // 2, d - 1`) leaves n / 2^d
+    # unchanged when it has the shape rule S demands; it is judged by rule S and set aside for the rules about the expansion itself
+    inloop_simpl = [st for st in lp.body if isinstance(st, ast.While) and len(st.body) == 1 and isinstance(st.body[0], ast.Assign) and isinstance(st.body[0].targets[0], ast.Tuple)
+                    and len(st.body[0].targets[0].elts) == 2 and not st.orelse]
+    inloop_pos = None
+    if len(inloop_simpl) == 1:
+        inloop_pos = lp.body.index(inloop_simpl[0])
+        inloop_before = list(lp.body[:inloop_pos])
+        lp.body = [st for st in lp.body if st is not inloop_simpl[0]]
+    else:
+        inloop_simpl = []
     body = lp.body
     defs = {}
     order = []
@@ -318,7 +329,32 @@ def check_expansion(ctx, rule="C19", only=None, default_tolerance_only=False):
                         pass
         ctx.check(R("B"), "get_angle_spec_from_float:numerator-checked-before-recording", guarded,
                   "a step is recorded without a dominating check that its numerator is at most n_max", repo.loc(m, lp))
-    if want("S"):
+    if want("S") and inloop_simpl:
+        w = inloop_simpl[0]
+        tt = w.test
+        upd = w.body[0]
+        ta, tb = [A.norm(x) for x in upd.targets[0].elts]
+        ok_s, nonneg, detail = False, False, f"`{src(upd)}` under `{src(tt)}`"
+        if isinstance(upd.value, ast.Tuple) and len(upd.value.elts) == 2 and (ta, tb) == (nvar, dvar):
+            va, vb = upd.value.elts
+            half = A.norm(_strip_int(va)) in (f"{ta}/2", f"{ta}//2")
+            dec = A.norm(vb) == f"{tb}-1"
+            try:
+                runs = {(av, dv): bool(G.peval(tt, {ta: av, tb: dv})) for av in (2, 3, 4, 128) for dv in (0, 1, 5)}
+                even_only = all(not r for (av, dv), r in runs.items() if av % 2 == 1) and all(r for (av, dv), r in runs.items() if av % 2 == 0 and dv >= 1)
+                nonneg = all(not r for (av, dv), r in runs.items() if dv == 0)
+            except Unknown:
+                even_only = nonneg = False
+            # it works on the step of this iteration: after n and d are computed, before the step is recorded
+            placed = all(any(st_ is d_ for st_ in inloop_before) for d_ in (defs[nvar][0], defs[dvar][0])) and \
+                not any(isinstance(c_, ast.Call) and isinstance(c_.func, ast.Attribute) and c_.func.attr == "append" for st_ in inloop_before for c_ in ast.walk(st_))
+            ok_s = half and dec and even_only and placed
+        ctx.check(R("S"), "get_angle_spec_from_float:simplification-keeps-the-exponent-non-negative", nonneg,
+                  f"the simplification loop `while {src(tt)}` can decrement the exponent below 0: for an angle within float rounding of a full turn the remainder is exactly 2.0, "
+                  "the step (128, 6) simplifies to (1, -1), and a negative exponent cannot be encoded", repo.loc(m, w))
+        ctx.check(R("S"), "get_angle_spec_from_float:simplification-keeps-n/2^d", ok_s,
+                  f"the simplification of a step must halve n and decrement d together while n is even and write the pair back to its own slot ({detail})", repo.loc(m, fn))
+    elif want("S"):
         post = fn.body[fn.body.index(lp) + 1:]
         simp = [st for st in post if isinstance(st, ast.For)]
         ok_s = True
@@ -454,39 +490,79 @@ def check_builder(ctx, rule="C19.E"):
     if fn is None:
         raise AnalysisError("Builder._build_cmds_single_qubit_rotation not found")
     ctx.fn("Builder._build_cmds_single_qubit_rotation")
-    params = A.param_names(fn)
-    arm = [st for st in fn.body if isinstance(st, ast.If) and A.norm(st.test) in ("angleisnotNone",)]
-    if len(arm) != 1:
-        ctx.error(rule, "float-angle arm (`if angle is not None`) not found in _build_cmds_single_qubit_rotation")
-        return
-    arm = arm[0]
+    # executed by the checker's interpreter with get_angle_spec_from_float modelled (it returns a fixed list of steps) and the emitting
+    # primitives recorded: for a float angle exactly one rotation per step, in order, each `set <qubit register> <qubit id>` followed by
+    # the rotation instruction with operands [register, n, d]; without an angle the single step (n, d); an invalid step is refused
+    from .. import circuit as C
+    from ..model import EnumMember
+    gi_ = repo.get_class("netqasm.lang.ir", "GenericInstr")
+    rotx = EnumMember(gi_.qualname, "ROT_X", ctx.ev.enum_members(gi_)["ROT_X"])
+    tcls = repo.get_class("netqasm.lang.operand", "Template")
+    steps = [(3, 1), (0, 0), (255, 9), (1, 7)]
     ctx.anchor(rule, "float-angle arm of the rotation builder", 1, 1)
-    d = {}
-    for st in arm.body:
-        if isinstance(st, ast.Assign) and isinstance(st.targets[0], ast.Name):
-            d[st.targets[0].id] = st.value
-    loops = [st for st in arm.body if isinstance(st, ast.For)]
-    ok = False
-    detail = "no loop over the steps"
-    if len(loops) == 1:
-        lp = loops[0]
-        it = d.get(lp.iter.id) if isinstance(lp.iter, ast.Name) else lp.iter
-        from_spec = isinstance(it, ast.Call) and A.call_name(it) == "get_angle_spec_from_float" and A.norm(A.get_arg(it, 0, "angle")) == "angle" and len(it.args) + len(it.keywords) == 1
-        tgt = [A.norm(x) for x in lp.target.elts] if isinstance(lp.target, ast.Tuple) else []
-        calls = [c for st in lp.body for c in ast.walk(st) if isinstance(c, ast.Call) and A.is_self_attr(c.func, "_build_cmds_single_qubit_rotation")]
-        one = len(lp.body) == 1 and len(calls) == 1
-        if one and len(tgt) == 2:
-            kw = A.kwargs_of(calls[0])
-            same = A.norm(kw.get("instruction", ast.Constant(value=0))) == "instruction" and A.norm(kw.get("virtual_qubit_id", ast.Constant(value=0))) == "virtual_qubit_id" \
-                and A.norm(kw.get("n", ast.Constant(value=0))) == tgt[0] and A.norm(kw.get("d", ast.Constant(value=0))) == tgt[1] and "angle" not in kw
-            ok = from_spec and same
-            detail = f"iterates `{src(it)}` and emits `{src(calls[0])}`"
-        else:
-            detail = "the loop body is not exactly one rotation per step"
-    ends = bool(arm.body) and isinstance(arm.body[-1], ast.Return)
-    ctx.check(rule, "_build_cmds_single_qubit_rotation:one-rotation-per-step-in-order", ok and ends,
-              f"for a float angle the builder must emit exactly one rotation per (n, d) step of get_angle_spec_from_float(angle), in order, with the same instruction and qubit, and nothing else ({detail})",
-              b.loc(fn), sample={"arm": detail})
+
+    def run_(kw):
+        log = []
+        asked = []
+        sc = C.Scenario()
+        regs = []
+
+        def get_reg(*a_, **k_):
+            regs.append(C.RegSym(f"Q{len(regs)}"))
+            return regs[-1]
+
+        sc.overrides.update({"_get_qubit_register": get_reg,
+                             "_build_cmds_set_register_value": lambda register=None, value=None, *a_, **k_: log.append(("set", register, value if value is not None else (a_[0] if a_ else None))),
+                             "subrt_add_pending_command": lambda command=None, *a_, **k_: log.append(("cmd", command)),
+                             "get_angle_spec_from_float": lambda angle=None, *a_, **k_: (asked.append((angle, a_, k_)), list(steps))[1]})
+        o = C.object_from_init(repo, b, {}, kind="self")
+        try:
+            C.Interp(repo, ctx.ev, sc, b).call_function(b.module, fn, [], dict(kw), self_obj=o)
+        except C.EvalRaise as ex_:
+            return f"raises {ex_.exc_name}", log, asked
+        return "ok", log, asked
+
+    def rotations(log):
+        """[(qubit id set into the register, instruction name, n, d)] - None when the log is not set/rotation pairs on one register"""
+        out = []
+        if len(log) % 2:
+            return None
+        for i_ in range(0, len(log), 2):
+            s_, c_ = log[i_], log[i_ + 1]
+            if s_[0] != "set" or c_[0] != "cmd" or not isinstance(c_[1], C.Obj):
+                return None
+            ops = c_[1].fields.get("operands")
+            ins = c_[1].fields.get("instruction")
+            if not isinstance(ops, list) or len(ops) != 3 or ops[0] is not s_[1]:
+                return None
+            out.append((s_[2], ins.name if isinstance(ins, EnumMember) else ins, ops[1], ops[2]))
+        return out
+
+    ok, detail = True, ""
+    try:
+        outcome, log, asked = run_({"instruction": rotx, "virtual_qubit_id": 5, "angle": 0.7})
+        got = rotations(log)
+        want = [(5, "ROT_X", n_, d_) for n_, d_ in steps]
+        if outcome != "ok" or got != want or len(asked) != 1 or asked[0][0] != 0.7 or asked[0][1] or any(k_ != "angle" for k_ in asked[0][2]):
+            ok, detail = False, f"angle=0.7 with steps {steps}: {outcome}, the steps were asked for as {asked}, emitted {got if got is not None else log!r}"
+        outcome, log, asked = run_({"instruction": rotx, "virtual_qubit_id": 0, "n": 3, "d": 2})
+        if ok and (outcome != "ok" or rotations(log) != [(0, "ROT_X", 3, 2)] or asked):
+            ok, detail = False, f"n=3, d=2 without an angle: {outcome}, emitted {rotations(log)!r}, decomposition asked for {asked}"
+        t_ = C.Obj(tcls, {"name": "t"})
+        outcome, log, asked = run_({"instruction": rotx, "virtual_qubit_id": 1, "n": t_, "d": 2})
+        if ok and (outcome != "ok" or not (rotations(log) or [None])[0] or rotations(log)[0][2] is not t_):
+            ok, detail = False, f"a template numerator is not passed through: {outcome}, {rotations(log)!r}"
+        for bad_kw in ({"n": -1, "d": 2}, {"n": 1, "d": -2}, {"n": 1.5, "d": 2}):
+            outcome, log, asked = run_(dict({"instruction": rotx, "virtual_qubit_id": 1}, **bad_kw))
+            if ok and (outcome == "ok" or log):
+                ok, detail = False, f"the invalid step {bad_kw} is not refused before anything is emitted: {outcome}, {log!r}"
+    except AnalysisError as ex_:
+        ctx.error(rule, f"_build_cmds_single_qubit_rotation cannot be evaluated: {ex_}")
+        ok = None
+    if ok is not None:
+        ctx.check(rule, "_build_cmds_single_qubit_rotation:one-rotation-per-step-in-order", ok,
+                  f"for a float angle the builder must emit exactly one rotation per (n, d) step of get_angle_spec_from_float(angle), in order, with the same instruction and qubit, and nothing else ({detail})",
+                  b.loc(fn), sample={"steps": steps})
     q = repo.get_class("netqasm.sdk.qubit", "Qubit")
     for meth, gi in (("rot_X", "ROT_X"), ("rot_Y", "ROT_Y"), ("rot_Z", "ROT_Z")):
         f = q.methods.get(meth)
@@ -506,7 +582,12 @@ def run(ctx):
 
 SP_FILE = "netqasm/sdk/toolbox/state_prep.py"
 BF = "netqasm/sdk/builder.py"
+_POST_SIMPL = "    # Check if some of the (n, d)'s can be simplified, i.e. if `n = b * 2 ^ m` for some `m` and `b`\n    for i, (n, d) in enumerate(nds):\n        n_new, d_new = n, d\n        while (n_new % 2) == 0 and d_new > 0:\n            n_new, d_new = (int(n_new / 2), d_new - 1)\n        nds[i] = (n_new, d_new)\n"
 SEEDS = [
+    dict(id="c19-inloop-simplification-unguarded", expect="C19.S", construct="exponent-non-negative",
+         edits=[(SP_FILE, "        nds.append((n, d))\n        rest -= n / 2**d\n", "        rest -= n / 2**d\n        while n % 2 == 0:\n            n, d = n // 2, d - 1\n        nds.append((n, d))\n"), (SP_FILE, _POST_SIMPL, "")]),
+    dict(id="c19-inloop-simplification-halves-n-only", expect="C19.S", construct="simplification-keeps-n/2^d",
+         edits=[(SP_FILE, "        nds.append((n, d))\n        rest -= n / 2**d\n", "        rest -= n / 2**d\n        while d > 0 and n % 2 == 0:\n            n, d = n // 2, d\n        nds.append((n, d))\n"), (SP_FILE, _POST_SIMPL, "")]),
     dict(id="c19-round-to-nearest", file=SP_FILE, expect="C19.G", construct="step-never-overshoots", old="        n = int(np.floor(rest * 2**d))", new="        n = int(np.round(rest * 2**d))"),
     dict(id="c19-tolerance-scaled-by-pi", file=SP_FILE, expect="C19.G", construct="within-the-tolerance", old="    while rest > tol:", new="    tol_rest = tol * np.pi\n    while rest > tol_rest:"),
     dict(id="c19-ceil-numerator", file=SP_FILE, expect="C19.G", construct="step-never-overshoots", old="        n = int(np.floor(rest * 2**d))", new="        n = int(np.ceil(rest * 2**d))"),
@@ -527,6 +608,7 @@ SEEDS = [
          old="            instruction=GenericInstr.ROT_Y,\n            virtual_qubit_id=self.qubit_id,\n            n=n,\n            d=d,\n            angle=angle,", new="            instruction=GenericInstr.ROT_Y,\n            virtual_qubit_id=self.qubit_id,\n            n=n,\n            d=d,"),
 ]
 BENIGN = [
+    dict(id="c19-benign-inloop-simplification", edits=[(SP_FILE, "        nds.append((n, d))\n        rest -= n / 2**d\n", "        rest -= n / 2**d\n        while d > 0 and n % 2 == 0:\n            n, d = n // 2, d - 1\n        nds.append((n, d))\n"), (SP_FILE, _POST_SIMPL, "")]),
     dict(id="c19-benign-stricter-loop-bound", file=SP_FILE, old="    while rest > tol:", new="    half = tol / 2\n    while rest > half:"),
     dict(id="c19-benign-filter-beyond-field-width", file=SP_FILE, old="        nds[i] = (n_new, d_new)\n    return nds\n", new="        nds[i] = (n_new, d_new)\n    nds = [(n, d) for (n, d) in nds if d < 256]\n    return nds\n"),
     dict(id="c19-benign-step-cap-eight", file=SP_FILE, old="    while rest > tol:", new="    while rest > tol and len(nds) < 64 // IMMEDIATE_BITS:"),
